@@ -197,8 +197,9 @@ def scn_suffstat(model, T, scheme, grid):
     return scn
 
 
-def scn_suffstat_batched(T, scheme):
-    """skyride sufficient statistics with batched thetas and heights (each sample has its own event ordering)"""
+def scn_suffstat_batched(T, scheme, grid=None):
+    """skyride / skygrid sufficient statistics with batched thetas and heights (each sample has its own event ordering): either the call
+    raises (an unsupported shape) or row b of the statistics and counts reproduces log_prob of sample b"""
     from contracts.C08 import SCHEMES, _heights, _require_genealogy
     tips = SCHEMES[scheme](T)
 
@@ -208,18 +209,31 @@ def scn_suffstat_batched(T, scheme):
         cond.TIES[0] = "assume_distinct"
         with symbolic_factories(co, enabled=mk.symbolic):
             nh, h = _heights(mk, T, (2,), tips)
-            _require_genealogy(mk, tips, h, (2,), T)
-            theta = mk.real("theta", (2, T - 1), lo=0)
-            dist = co.PiecewiseConstantCoalescent(theta)
+            if grid is None:
+                _require_genealogy(mk, tips, h, (2,), T)
+                G = T - 1
+                theta = mk.real("theta", (2, G), lo=0)
+                dist = co.PiecewiseConstantCoalescent(theta)
+            else:
+                _require_genealogy(mk, tips, h, (2,), T, grid)
+                G = len(grid) + 1
+                theta = mk.real("theta", (2, G), lo=0)
+                dist = co.PiecewiseConstantCoalescentGrid(theta, torch.tensor(grid, dtype=torch.float64))
             lp = dist.log_prob(nh)
-            ss, counts = dist.sufficient_statistics(nh)
-        if tuple(ss.shape) != (2, T - 1) or tuple(counts.shape) != (2, T - 1):
+            try:
+                ss, counts = dist.sufficient_statistics(nh)
+            except Exception as e:
+                from vt.cond import Infeasible, Undecided
+                if isinstance(e, (Infeasible, Undecided)):
+                    raise
+                return [("true", "unsupported_shape_raises", True, "%s: %s" % (type(e).__name__, e))]
+        if tuple(ss.shape) != (2, G) or tuple(counts.shape) != (2, G):
             return [("true", "shapes", False, "ss %s counts %s" % (tuple(ss.shape), tuple(counts.shape)))]
         spec = []
         cnt = mk.lift(counts.double()) if isinstance(counts, torch.Tensor) else counts
         for b in range(2):
             tot = 0
-            for g in range(T - 1):
+            for g in range(G):
                 tot = tot - el(ss, (b, g)) / el(theta, (b, g)) - el(cnt, (b, g)) * slog(el(theta, (b, g)))
             spec.append(tot)
         return [("eq", "sufficient_statistics_reproduce_log_prob", lp, spec)]
@@ -535,6 +549,7 @@ def obligations(tier, seed):
     for T in (3,) if tier == "quick" else (3, 4):
         for scheme in ("serial", "ties"):
             add("C20.suffstat.skyride.batched[T=%d,%s]" % (T, scheme), "scn_suffstat_batched", (T, scheme), "sufficient statistics reproduce log_prob (batched, per-sample orderings)")
+            add("C20.suffstat.skygrid.batched[T=%d,%s,grid=[0.4, 2.5]]" % (T, scheme), "scn_suffstat_batched", (T, scheme, [0.4, 2.5]), "sufficient statistics reproduce log_prob (batched, per-sample orderings) or the call raises")
     for N in (2, 3):
         add("C20.gmrf.timeaware.sequence[N=%d]" % N, "scn_gmrf_sequence", (N,), "time-aware GMRF follows a re-ranking of the coalescent times")
     obs.append(ob_quadrature(seed))
